@@ -235,13 +235,15 @@ inductive State where
   `roi.contains` on the tuple of pixel coordinates. -/
   | roiPix (axes : List Nat) (roi : List Nat → Bool)
   /-- `RoiSubsetStateNd` on pixel attributes whose test goes through `iterate_chunks` (a `pretransform`,
-  or `Projected3dROI.contains3d`).  Known finding `C04h`: `iterate_chunks(())` raises on a 0-d result
-  (a view that selects a single element). -/
+  or `Projected3dROI.contains3d`).  As repaired (`C04h`) `iterate_chunks(())` yields the single empty
+  chunk of a 0-d result (a view that selects a single element), so chunking is transparent; the pinned
+  tree raised there (`Pinned.mask`). -/
   | roiChunked (axes : List Nat) (roi : List Nat → Bool)
-  /-- `CategoricalROISubsetState2D` / `CategoricalMultiRangeSubsetState` on a 1-d dataset: a Python loop
-  `for i in range(len(values))` over `data[att, view]`; `f` as for `table`.  Known finding `C04i`: a
-  view that selects a single element makes `len()` / indexing raise (`indexErr`: `IndexError`, else
-  `TypeError`). -/
+  /-- `CategoricalROISubsetState2D` / `CategoricalMultiRangeSubsetState`: a Python loop over the
+  *ravelled* `data[att, view]` that fills a mask of the values' shape (as repaired, `C04i`); `f` as for
+  `table`.  The pinned tree looped over `range(len(values))` and only worked for 1-d results
+  (`Pinned.mask`; there `indexErr` says whether a single selected element made it raise `IndexError`
+  rather than `TypeError`). -/
   | loop1d (indexErr : Bool) (f : List Nat → Bool)
   /-- `SliceSubsetState(data, slices)` (entries padded to `ndim`; integer entries occur in
   `IndexedData._indices_subset_state`). -/
@@ -436,25 +438,13 @@ def mask (sh : List Nat) : State → View → Except ViewErr (NArr Bool)
   | .table f, v => gather sh f v
   | .roiPix axes roi, v => roiPix sh axes roi v
   | .roiChunked axes roi, v =>
-    match viewPoints sh v with
-    | .error e => .error e
-    | .ok (shape, _) =>
-      if shape.isEmpty then .error .indexError          -- `iterate_chunks(())` raises IndexError
-      else roiPix sh axes roi v
-  | .loop1d indexErr f, v =>
-    match viewPoints sh v with
-    | .error e => .error e
-    | .ok (shape, pts) =>
-      match shape with
-      | [] =>
-        -- the "array" is a bare label: `len()` of a float raises (`indexErr = false`); `len()` of a
-        -- string is its length, the loop runs, and `mask[0] = True` on the 0-d mask raises only if the
-        -- element is selected (`indexErr = true`)
-        if indexErr then (if pts.any f then .error .indexError else .ok ⟨[], pts.map f⟩) else .error .domain
-      | [_] => .ok ⟨shape, pts.map f⟩
-      | n :: _ :: _ =>
-        -- `labels[i]` is a row: unhashable (TypeError) as soon as there is a row
-        if n = 0 then .ok ⟨shape, pts.map f⟩ else .error .domain
+    -- the chunks of `iterate_chunks` partition the (reduced) arrays for every number of axes — C20
+    -- `iterateChunksLoop_partition`; for a 0-d result the single chunk is `()` (`C04h`) — so the
+    -- chunked evaluation is the unchunked one
+    roiPix sh axes roi v
+  | .loop1d _ f, v =>
+    -- `mask = zeros(shape(values))`; the loop runs over the ravelled values and sets `mask.reshape(-1)[i]`
+    gather sh f v
   | .sliceSt sls, v => sliceMask sh sls v
   | .unrelated, v => gather sh (fun _ => false) v
   | .maskSame m, v => (NArr.mk sh m).index (noneToSlice v)
@@ -477,36 +467,35 @@ def mask (sh : List Nat) : State → View → Except ViewErr (NArr Bool)
 
 end Impl
 
-/-- The decidable hypothesis of the partial theorems: the view does not hit one of the two listed
-loud failures (`C04h`, `C04i`) of a leaf of the selection. -/
-def State.quiet (sh : List Nat) (v : View) : State → Bool
-  | .roiChunked _ _ =>
+namespace Pinned
+
+/-- `state.to_mask(data, view)` **as coded in the pinned tree**, before the repairs `C04h` and `C04i`
+(kept only for the `decide`d witnesses of the old behaviour in `Props/C04.lean`; the driver never runs
+it): the two leaf classes whose view handling was loud, every other selection as `Impl.mask`. -/
+def mask (sh : List Nat) : State → View → Except ViewErr (NArr Bool)
+  | .roiChunked axes roi, v =>
     match viewPoints sh v with
-    | .ok (shape, _) => !shape.isEmpty
-    | .error _ => true
-  | .loop1d indexErr f =>
+    | .error e => .error e
+    | .ok (shape, _) =>
+      if shape.isEmpty then .error .indexError          -- `iterate_chunks(())` raised IndexError
+      else Impl.roiPix sh axes roi v
+  | .loop1d indexErr f, v =>
     match viewPoints sh v with
+    | .error e => .error e
     | .ok (shape, pts) =>
       match shape with
-      | [] => indexErr && !pts.any f
-      | [_] => true
-      | n :: _ :: _ => n == 0
-    | .error _ => true
-  | .and a b => a.quiet sh v && b.quiet sh v
-  | .or a b => a.quiet sh v && b.quiet sh v
-  | .xor a b => a.quiet sh v && b.quiet sh v
-  | .inv a => a.quiet sh v
-  | _ => true
+      | [] =>
+        -- the "array" is a bare label: `len()` of a float raises (`indexErr = false`); `len()` of a
+        -- string is its length, the loop runs, and `mask[0] = True` on the 0-d mask raises only if the
+        -- element is selected (`indexErr = true`)
+        if indexErr then (if pts.any f then .error .indexError else .ok ⟨[], pts.map f⟩) else .error .domain
+      | [_] => .ok ⟨shape, pts.map f⟩
+      | n :: _ :: _ =>
+        -- `labels[i]` is a row: unhashable (TypeError) as soon as there is a row
+        if n = 0 then .ok ⟨shape, pts.map f⟩ else .error .domain
+  | st, v => Impl.mask sh st v
 
-/-- Selections without a leaf that has a listed loud failure. -/
-def State.plain : State → Bool
-  | .roiChunked _ _ => false
-  | .loop1d _ _ => false
-  | .and a b => a.plain && b.plain
-  | .or a b => a.plain && b.plain
-  | .xor a b => a.plain && b.plain
-  | .inv a => a.plain
-  | _ => true
+end Pinned
 
 /-! ## `IndexedData` -/
 
@@ -674,8 +663,6 @@ def posSliceEntry : ViewItem → Bool
 def stateWf (sh : List Nat) : State → Bool
   | .pred a _ => attrWf sh a
   | .pred2 a b _ => attrWf sh a && attrWf sh b
-  | .roiChunked _ _ => !sh.isEmpty
-  | .loop1d _ _ => sh.length == 1
   | .sliceSt sls => sls.length == sh.length && sls.all posSliceEntry
   | .maskSame m => m.length == prod sh && !sh.isEmpty
   | .maskAxes _ _ _ => !sh.isEmpty
